@@ -220,3 +220,79 @@ func (c *Ctx) joinTerm(rule string) {
 	})
 	c.R.Check(rule, shortFn(fn), "terminator-delivered-completely", fn.Pos(), ok && uses > 0, why)
 }
+
+// readerSiblings: the reader types of the package deliver message bytes
+// through Read alone; the rules above decide Read.  A further method of one of
+// these types that pulls data from the inner reader (WriteTo, ReadByte, ...)
+// is a second delivery path that io.Copy, bufio and friends prefer over Read
+// and that no rule has decided: it is reported as undecided rather than
+// assumed to agree with Read.
+func (c *Ctx) readerSiblings(rule string) {
+	types_ := []string{"messageReader", "joinReader", "flateReadWrapper", "brNetConn"}
+	known := map[string]bool{"Read": true, "Close": true, "NetConn": true}
+	nextReader := c.P.FuncOpt("(*Conn).NextReader")
+	bad := ""
+	var badFn *ssa.Function
+	n := 0
+	for _, fn := range c.P.FuncList {
+		recv := fn.Signature.Recv()
+		if recv == nil || fn.Synthetic != "" || fn.Parent() != nil {
+			continue
+		}
+		rt := recv.Type()
+		if pt, ok := rt.(*types.Pointer); ok {
+			rt = pt.Elem()
+		}
+		nt, ok := rt.(*types.Named)
+		if !ok {
+			continue
+		}
+		match := false
+		for _, t := range types_ {
+			if nt.Obj().Name() == t {
+				match = true
+			}
+		}
+		if !match {
+			continue
+		}
+		n++
+		if known[fn.Name()] {
+			continue
+		}
+		// does it read?  a call of some Read([]byte), of NextReader, or of a library copier
+		reads := false
+		for _, b := range fn.Blocks {
+			for _, in := range b.Instrs {
+				ci, isCall := in.(ssa.CallInstruction)
+				if !isCall {
+					continue
+				}
+				cc := ci.Common()
+				if cc.IsInvoke() && cc.Method.Name() == "Read" {
+					reads = true
+				}
+				if f := cc.StaticCallee(); f != nil {
+					switch {
+					case f == nextReader, f.Name() == "Read" && f.Signature.Recv() != nil:
+						reads = true
+					case f.Pkg != nil && f.Pkg.Pkg.Path() == "io" && (f.Name() == "Copy" || f.Name() == "CopyN" || f.Name() == "CopyBuffer" || f.Name() == "ReadFull" || f.Name() == "ReadAll" || f.Name() == "ReadAtLeast"):
+						reads = true
+					case extName(f) == "(*bufio.Reader).WriteTo" || extName(f) == "(*bufio.Reader).ReadByte" || extName(f) == "(*bufio.Reader).Peek" || extName(f) == "(*bufio.Reader).Discard":
+						reads = true
+					}
+				}
+			}
+		}
+		if reads {
+			bad, badFn = shortFn(fn), fn
+		}
+	}
+	why := "the reader types deliver data through Read only"
+	pos := c.fn("(*messageReader).Read").Pos()
+	if bad != "" {
+		why = bad + " is a second way of pulling message data out of a reader type (preferred over Read by io.Copy / bufio): its end-of-message, error and terminator behaviour is not decided by any rule and is not assumed to agree with Read"
+		pos = badFn.Pos()
+	}
+	c.R.Check(rule, "package", "no-undecided-delivery-method", pos, bad == "" && n >= 4, why)
+}
